@@ -101,6 +101,8 @@ func errClass(err error) string {
 		return "validate"
 	case strings.Contains(s, "references unknown profile"):
 		return "unknownProfile"
+	case strings.Contains(s, "artifact file exists multiple times"):
+		return "duplicateArtifact"
 	case strings.Contains(s, "alias exists multiple times"):
 		return "duplicateAlias"
 	case strings.Contains(s, "not consistent"):
